@@ -49,14 +49,16 @@ def classify(res):
         whole = bool(c0["found"] and not c0["cmp"] and c0["replaced"]) or bool(c1 and c1["found"] and not c1["cmp"] and c1["replaced"])
         reqs.append(dumps([Sym("sync_class"), "." in name, obs_of(c0, name), opt(obs_of(c1, name) if c1 else None)]))
         reqs.append(dumps([Sym("frame_class"), True, whole, "." in name, obs_of(c0, name), opt(obs_of(c1, name) if c1 else None)]))
+        reqs.append(dumps([Sym("install_class"), "." in name, obs_of(c0, name)]))
         keys.append(k)
     out = {}
     if reqs:
         outs = run_model(reqs)
         for idx, k in enumerate(keys):
-            e, e2 = loads(outs[2 * idx]), loads(outs[2 * idx + 1])
-            out[k] = None if e == "none" else unhx(e[1])
+            e, e2, e3 = loads(outs[3 * idx]), loads(outs[3 * idx + 1]), loads(outs[3 * idx + 2])
+            out[(k, "repeat")] = None if e == "none" else unhx(e[1])
             out[(k, "module-docstring-only")] = None if e2 == "none" else unhx(e2[1])
+            out[(k, "install")] = None if e3 == "none" else unhx(e3[1])
     return out
 
 
@@ -98,8 +100,10 @@ def evaluate(rng, tier, judge, n_quick=110, n_thorough=1500, runs=3, cli_share=0
                 cls = "truth-definition-not-found"
             elif f.get("kind") == "module-docstring-only" and (k, "module-docstring-only") in classes:
                 cls = classes[(k, "module-docstring-only")]
-            elif k in classes:
-                cls = classes[k]
+            elif (k, "install") in classes:
+                # what happens in the first run is judged against the first call alone; later runs against both
+                first_run = f["facts"].get("run", 0) == 0
+                cls = classes[(k, "install")] if first_run else classes[(k, "repeat")]
             else:
                 cls = None
             if cls in ABSORBS and f.get("kind") is not None and f["kind"] not in ABSORBS[cls]:
